@@ -264,3 +264,43 @@ func Harness_C10_duplex_close() {
 	read(a, db, "a")
 	verif_Cover("C10.dx.done")
 }
+
+// Two tunnels write through one cross-node connection at the same moment (each write call on the
+// connection is one step on the wire; a gathered write of header and payload is one step too):
+// every frame is on the wire in one piece, so the peer decodes exactly the two tunnels' frames -
+// no tunnel's payload is ever preceded by the other's header. (Engine only: the interleaving of
+// two native writers cannot be forced.)
+func Harness_C10_concurrent_tunnels() {
+	var a, b [16]byte
+	for i := range a {
+		a[i] = byte('a' + i)
+		b[i] = byte('A' + i)
+	}
+	da := verif_Bytes(verif_IntRange(1, verif_Bound("payload")))
+	db := verif_Bytes(verif_IntRange(1, verif_Bound("payload")))
+	out := &verifSink{}
+	tcp := verif_TCPConn(&verifReader{}, out)
+	conn := &Conn{tcpConn: tcp}
+	fa, fb := NewFrameStream(conn, a), NewFrameStream(conn, b)
+	var ea, eb error
+	verif_Spawn(func() { _, ea = fa.Write(da) })
+	verif_Spawn(func() { _, eb = fb.Write(db) })
+	verif_Quiesce()
+	verif_Assert("C10.cc.writes_ok", ea == nil && eb == nil)
+	verif_TCPSync()
+	rd := &verifReader{Data: out.Buf}
+	sawA, sawB := false, false
+	for k := 0; k < 2; k++ {
+		id, typ, data, err := ReadFrameFromReader(rd)
+		verif_Assert("C10.cc.frame_decodes", err == nil && typ == FrameTypeData)
+		if id == a {
+			verif_Assert("C10.cc.tunnel_a_intact", !sawA && len(data) == len(da) && verif_BytesEq(data, da))
+			sawA = true
+		} else {
+			verif_Assert("C10.cc.tunnel_b_intact", id == b && !sawB && len(data) == len(db) && verif_BytesEq(data, db))
+			sawB = true
+		}
+	}
+	verif_Assert("C10.cc.nothing_else", sawA && sawB && rd.Pos == len(rd.Data))
+	verif_Cover("C10.cc.done")
+}
